@@ -335,6 +335,7 @@ func TestVerif_C19(t *testing.T) {
 	defer ioutil.WriteFile(filepath.Join(verifOut(), "c19_client_done"), []byte("done"), 0644)
 	// WHICH agent (needs no server: done while the server harness comes up)
 	icases, iidx := c19cEnvCases(t, res, testlogger.New(t))
+	lcases, lidx := c19cLabelCases(t, res, testlogger.New(t))
 	// the server harness writes its address when it is up
 	var info map[string]string
 	deadline := time.Now().Add(4 * time.Minute)
@@ -754,7 +755,7 @@ func TestVerif_C19(t *testing.T) {
 	}
 	var sb strings.Builder
 	sb.WriteString(coqCaseHeader)
-	sb.WriteString("From KM Require Import Base.Cases Model.Client Model.ClientEnv.\n")
+	sb.WriteString("From KM Require Import Base.Cases Model.Client Model.ClientEnv Model.ClientLabel.\n")
 	sb.WriteString("Definition runs : list (N * bool * bool * bool * bool * string * list (N * list N) * list (string * N * bool) * list string) := [\n" + strings.Join(cases, ";\n") + "\n].\n")
 	sb.WriteString("Definition c19_mismatches := Eval vm_compute in mismatches (fun c => negb (run_matches c)) runs.\nPrint c19_mismatches.\n")
 	// the property predicate on the observation: private material in a recorded request, or a private file open to others
@@ -769,12 +770,18 @@ func TestVerif_C19(t *testing.T) {
 	sb.WriteString("Definition c19i_violating := Eval vm_compute in mismatches (fun c => c19i_bad c && iviolates c) icases.\nPrint c19i_violating.\n")
 	sb.WriteString("Definition c19i_violating_mode := Eval vm_compute in mismatches (fun c => c19i_bad c && iviolates_mode c) icases.\nPrint c19i_violating_mode.\n")
 	sb.WriteString("Definition c19i_ncases := Eval vm_compute in length icases.\nPrint c19i_ncases.\n")
+	sb.WriteString("Definition lcases : list lcase := [\n" + strings.Join(lcases, ";\n") + "\n].\n")
+	sb.WriteString("Definition c19l_bad (c : lcase) : bool := negb (lcheck c).\n")
+	sb.WriteString("Definition c19l_mismatches := Eval vm_compute in mismatches c19l_bad lcases.\nPrint c19l_mismatches.\n")
+	sb.WriteString("Definition c19l_violating := Eval vm_compute in mismatches (fun c => c19l_bad c && lviolates c) lcases.\nPrint c19l_violating.\n")
+	sb.WriteString("Definition c19l_ncases := Eval vm_compute in fold_left (fun n (c : lcase) => (n + N.of_nat (length (snd c)))%N) lcases 0%N.\nPrint c19l_ncases.\n")
 	sb.WriteString("Definition c19_ncases := Eval vm_compute in length runs.\nPrint c19_ncases.\n")
 	if err := ioutil.WriteFile(filepath.Join(verifOut(), "CasesC19.v"), []byte(sb.String()), 0644); err != nil {
 		t.Fatal(err)
 	}
 	ioutil.WriteFile(filepath.Join(verifOut(), "CasesC19.idx"), []byte(strings.Join(idx, "\n")+"\n"), 0644)
 	ioutil.WriteFile(filepath.Join(verifOut(), "CasesC19I.idx"), []byte(strings.Join(iidx, "\n")+"\n"), 0644)
+	ioutil.WriteFile(filepath.Join(verifOut(), "CasesC19L.idx"), []byte(strings.Join(lidx, "\n")+"\n"), 0644)
 	ioutil.WriteFile(filepath.Join(verifOut(), "CasesC19W.idx"), []byte(strings.Join(webidx, "\n")+"\n"), 0644)
 	res.write(t, "TestVerif_C19")
 }
@@ -920,6 +927,194 @@ func c19cEnvCases(t *testing.T, res *verifResult, logger *testlogger.Logger) (ca
 		sc.close()
 	}
 	return cases, idx
+}
+
+// ---------------------------------------------------------------- labels (client level)
+
+// the client's real insertSSHCertIntoAgentORWriteToFilesystem, run after run into the agent SSH_AUTH_SOCK names, with
+// file prefixes / user names that make a label of every class (harness/base/c19env.go c19eLabelFamilies): the label is
+// filePrefix + "-" + userName.  Observed: the agent's listing after every run; Coq: Model/ClientLabel.v install_cert.
+func c19cLabelCases(t *testing.T, res *verifResult, logger *testlogger.Logger) (cases, idx []string) {
+	rng := verifRand()
+	root, cleanup, err := c19eRoot()
+	if err != nil {
+		t.Fatal(err)
+	}
+	defer cleanup()
+	oldSock, hadSock := os.LookupEnv("SSH_AUTH_SOCK")
+	defer func() {
+		if hadSock {
+			os.Setenv("SSH_AUTH_SOCK", oldSock)
+		} else {
+			os.Unsetenv("SSH_AUTH_SOCK")
+		}
+	}()
+	caKey, _ := ecdsa.GenerateKey(elliptic.P256(), rand.Reader)
+	caSigner, _ := ssh.NewSignerFromKey(caKey)
+	serial := uint64(5000)
+	mkCert := func(priv crypto.Signer) *ssh.Certificate {
+		pub, _ := ssh.NewPublicKey(priv.Public())
+		serial++
+		c := &ssh.Certificate{Key: pub, Serial: serial, CertType: ssh.UserCert, KeyId: "verif", ValidPrincipals: []string{"alice"},
+			ValidAfter: uint64(time.Now().Unix() - 60), ValidBefore: uint64(time.Now().Unix() + 3600)}
+		c.SignCert(rand.Reader, caSigner)
+		return c
+	}
+	newKey := func(i int) (crypto.Signer, string) {
+		switch i % 3 {
+		case 0:
+			k, _ := ecdsa.GenerateKey(elliptic.P256(), rand.Reader)
+			return k, "p256"
+		case 1:
+			_, k, _ := ed25519.GenerateKey(rand.Reader)
+			return k, "ed25519"
+		}
+		k, _ := ecdsa.GenerateKey(elliptic.P384(), rand.Reader)
+		return k, "p384"
+	}
+	// the label the client builds is filePrefix + "-" + userName: cut the wanted label at its last "-"
+	split := func(l string) (string, string) {
+		if i := strings.LastIndex(l, "-"); i >= 0 {
+			return l[:i], l[i+1:]
+		}
+		return l, l
+	}
+	show := func(l string) string {
+		if len(l) > 60 {
+			return fmt.Sprintf("%q...(%d bytes)", l[:40], len(l))
+		}
+		return fmt.Sprintf("%q", l)
+	}
+	rounds := 1
+	if verifThorough() {
+		rounds = 6
+	}
+	for round := 0; round < rounds; round++ {
+		for fi, fam := range c19eLabelFamilies(rng) {
+			if fam.class == "long" && round >= 2 {
+				continue // kilobyte labels are repeated in every listing: two rounds of them are enough
+			}
+			type pair struct{ prefix, user, label string }
+			var pairs []pair
+			seen := map[string]bool{}
+			for _, l := range fam.labels {
+				p, u := split(l)
+				if seen[p+"-"+u] {
+					continue
+				}
+				seen[p+"-"+u] = true
+				pairs = append(pairs, pair{p, u, p + "-" + u})
+			}
+			kr := agent.NewKeyring()
+			sock := filepath.Join(root, fmt.Sprintf("l%d_%d", round, fi), "a.sock")
+			lst, err := c19eServe(kr, sock)
+			if err != nil {
+				t.Errorf("label scene: %v", err)
+				res.hit(verifHit{Key: "C19:harness:scene", Oracle: "harness", What: "could not serve the agent of a label scene: " + err.Error(), Case: fam.class})
+				continue
+			}
+			os.Setenv("SSH_AUTH_SOCK", sock)
+			home := filepath.Join(root, fmt.Sprintf("l%d_%d", round, fi), "h")
+			os.MkdirAll(filepath.Join(home, ".ssh"), 0700)
+			// somebody else's identities: a plain key under the label, certificates under the neighbouring labels
+			fk, _ := newKey(fi)
+			kr.Add(agent.AddedKey{PrivateKey: fk, Comment: pairs[0].label})
+			for _, nb := range pairs[1:] {
+				k, _ := newKey(fi + 1)
+				kr.Add(agent.AddedKey{PrivateKey: k, Certificate: mkCert(k), Comment: nb.label})
+			}
+			start := c19eListing(kr)
+			plan := []int{0, 0}
+			if len(pairs) > 1 {
+				plan = append(plan, 1)
+			}
+			plan = append(plan, 0)
+			type installed struct {
+				label int
+				blob  string
+			}
+			var earlier []installed
+			var steps, descs []string
+			for si, li := range plan {
+				pr := pairs[li]
+				priv, kind := newKey(fi + si + round)
+				cert := mkCert(priv)
+				before := c19eListing(kr)
+				callErr := insertSSHCertIntoAgentORWriteToFilesystem(ssh.MarshalAuthorizedKey(cert), priv, pr.prefix, pr.user, filepath.Join(home, ".ssh", "key"), false, logger)
+				blob := c19eBlobID(cert.Marshal())
+				after := c19eListing(kr)
+				descs = append(descs, fmt.Sprintf("run %d: %s key, filePrefix %s userName %s -> %d entries", si+1, kind, show(pr.prefix), show(pr.user), len(after)))
+				cs := map[string]interface{}{"label_class": fam.class, "function": "insertSSHCertIntoAgentORWriteToFilesystem", "file_prefix_bytes": fmt.Sprintf("%x", c19Clip(pr.prefix)), "user_name_bytes": fmt.Sprintf("%x", c19Clip(pr.user)), "ops": append([]string(nil), descs...)}
+				if callErr != nil {
+					t.Errorf("insertSSHCertIntoAgentORWriteToFilesystem under %s: %v", show(pr.label), callErr)
+					res.hit(verifHit{Key: "C19:harness:install", Oracle: "harness", What: "insertSSHCertIntoAgentORWriteToFilesystem failed: " + callErr.Error(), Case: cs})
+				}
+				stale, under, reported := 0, 0, "(not listed)"
+				for _, old := range earlier {
+					if old.label != li || old.blob == blob {
+						continue
+					}
+					for _, e := range after {
+						if e.blob == old.blob {
+							stale++
+						}
+					}
+				}
+				for _, e := range after {
+					if e.cert && e.comment == pr.label {
+						under++
+					}
+					if e.blob == blob {
+						reported = e.comment
+					}
+				}
+				if stale > 0 || under > 1 {
+					res.hit(verifHit{Key: "C19:agent-label-accumulates:" + fam.class, Oracle: "a certificate installed under a label replaces the ones installed under that label before", Kind: "history",
+						What: fmt.Sprintf("after run %d of the client with filePrefix %s and userName %s (label class %s) the agent still holds %d certificate(s) that earlier runs with the same label put there; it reports %d certificate(s) under the label and calls the new one %s",
+							si+1, show(pr.prefix), show(pr.user), fam.class, stale, under, show(reported)), Case: cs, Observed: stale})
+				} else if callErr == nil && (under != 1 || reported != pr.label) {
+					res.hit(verifHit{Key: "C19:agent-label-not-kept:" + fam.class, Oracle: "the certificate is in the agent under the label the client was given", Kind: "history",
+						What: fmt.Sprintf("after a run with filePrefix %s and userName %s (label class %s) the agent reports %d certificate(s) under the label and calls the new one %s", show(pr.prefix), show(pr.user), fam.class, under, show(reported)), Case: cs, Observed: reported})
+				}
+				for _, e := range before {
+					if (e.cert && e.comment == pr.label) || e.blob == blob {
+						continue
+					}
+					mine := false
+					for _, old := range earlier {
+						if old.label == li && old.blob == e.blob {
+							mine = true
+						}
+					}
+					found := false
+					for _, a := range after {
+						if a == e {
+							found = true
+						}
+					}
+					if !mine && !found {
+						res.hit(verifHit{Key: "C19:agent-label-collateral:" + fam.class, Oracle: "installing a certificate under a label leaves identities under other labels (however close) alone", Kind: "history",
+							What: fmt.Sprintf("a run under %s removed or renamed the identity %s (certificate: %v)", show(pr.label), show(e.comment), e.cert), Case: cs})
+					}
+				}
+				earlier = append(earlier, installed{li, blob})
+				steps = append(steps, fmt.Sprintf("(%s, %s, %s)", coqPacked([]byte(pr.label)), coqPacked([]byte(blob)), c19eCoqListing(after)))
+				res.bump("label-client:" + fam.class)
+				res.eval(fmt.Sprintf("label-client|%s|%d|%s|%d", fam.class, li, kind, si), si > 0)
+			}
+			lst.Close()
+			cases = append(cases, fmt.Sprintf(" (%s,\n  [%s])", c19eCoqListing(start), strings.Join(steps, ";\n   ")))
+			idx = append(idx, fmt.Sprintf("%d\tlabel class %s, label bytes %x (%d bytes); %s", len(idx), fam.class, c19Clip(pairs[0].label), len(pairs[0].label), strings.Join(descs, " | ")))
+		}
+	}
+	return cases, idx
+}
+
+func c19Clip(s string) string {
+	if len(s) > 48 {
+		return s[:48]
+	}
+	return s
 }
 
 // ---------------------------------------------------------------- the user's browser (web login)
